@@ -69,13 +69,13 @@ def main():
     # 3. driver (model executable); if it cannot be built only the direct oracle runs
     drv = None
     try:
-        ok, log = lake_build(["qibdriver"])
+        ok, log = lake_build([mod.DRIVER])
         if ok:
-            drv = Driver()
+            drv = Driver(mod.DRIVER)
         else:
-            rep.tie_broken("qibdriver", "correspondence", "model driver does not build: " + log[-600:])
+            rep.tie_broken(mod.DRIVER, "correspondence", "model driver does not build: " + log[-600:])
     except Exception as e:
-        rep.tie_broken("qibdriver", "correspondence", f"{type(e).__name__}: {e}")
+        rep.tie_broken(mod.DRIVER, "correspondence", f"{type(e).__name__}: {e}")
 
     # 4./5. correspondence + failing-input search on the real implementation
     try:
